@@ -159,6 +159,12 @@ abbrev OtFun (L : Type) := List (WireL L) → List Bool → List L
 def OtSpec (ot : OtFun L) : Prop :=
   ∀ ws fl, ws.length = fl.length → ot ws fl = List.zipWith (fun w b => w.labelFor b) ws fl
 
+/-- The garbler's guard on the evaluator's OT request (`circuit.Garbler`:
+`offset != Inputs[0].Type.Bits || count != Inputs[1].Type.Bits` is an error):
+exactly the evaluator's own input wires may be asked for. -/
+def Circuit2.acceptsOtRange (p : Circuit2) (offset count : Nat) : Bool :=
+  offset == p.n0 && count == p.n1
+
 /-- A complete session.  `mkH` derives the hash functions from the key that
 is transmitted (AES key schedule); returns (garbler's results, evaluator's
 results). -/
